@@ -419,6 +419,8 @@ def gen_workflow(r):
         if r.random() < 0.3:
             v, nm, src = place()
             st["forEach"] = {"itemIn": v, "inputKey": r.choice(["item", "it"])}
+            if r.random() < 0.2:       # not described by the CRD schema, read by `_prepare_for_each`
+                st["forEach"]["condition"] = {"type": "Each", "name": "each item"}
             scanned["forEach"] = nm
         if r.random() < 0.75:
             inputs = {}
@@ -480,7 +482,9 @@ def workflow_request(spec, env_entries):
                                      for c in (sw.get("cases") or [])]} if sw else None),
             "skipIf": field_to_wire("expr", st.get("skipIf")),
             "forEach": ({"itemIn": field_to_wire("expr", fe.get("itemIn")),
-                         "inputKeyEmpty": not fe.get("inputKey")} if fe else None),
+                         "inputKeyEmpty": not fe.get("inputKey"),
+                         "conditionNotObject": bool(fe.get("condition")) and not isinstance(fe.get("condition"), dict)}
+                        if fe else None),
             "inputs": field_to_wire("map", st.get("inputs")),
             "state": field_to_wire("map", st.get("state")),
         })
